@@ -24,7 +24,7 @@ from depccg.grammar import en as grammar_en, ja as grammar_ja
 
 # the cleanliness claim of normalize_tokens is checked on tokens that do not already start with '_' (normalize_tokens leaves
 # those untouched, ccg2lambda_tools.py:61,65).  Set to True to make e.g. surf="_." a reported violation.
-STRICT_UNDERSCORE = False
+STRICT_UNDERSCORE = os.environ.get('VERIF_C15_STRICT_UNDERSCORE', '') == '1'
 
 PRE = '''From Coq Require Import List NArith Bool.
 Import ListNotations.
@@ -616,7 +616,8 @@ def pipeline(ctx, add):
                             ctx.count('normalize_tokens:skipped_already_underscored')
                             continue
                         if not v.startswith('_') or any(ch in STRIPPED for ch in v):
-                            ctx.fail('normalize_tokens_not_clean', f'{where}: token {key}={src!r} normalised to {v!r}', dict(data, token=b))
+                            kind = 'normalize_tokens_underscore_passthrough' if src.startswith('_') else 'normalize_tokens_not_clean'
+                            ctx.fail(kind, f'{where}: token {key}={src!r} normalised to {v!r}', dict(data, token=b))
                         if key == 'base' and b['base'] == '*' and 'surf' in b and v != t.get('surf') and not b['surf'].startswith('_'):
                             ctx.fail('normalize_tokens_star', f'{where}: base="*" became {v!r}, surf is {t.get("surf")!r}', dict(data, token=b))
                     ctx.count('oracle:normalize_tokens')
@@ -644,8 +645,6 @@ def pipeline(ctx, add):
                             want = [{k: dict(l[2]).get(k) for k in ('word', 'pos', 'entity', 'lemma', 'chunk')} for l in snap_leaves(s)]
                             if [dict(tk) for tk in toks] != want:
                                 ctx.fail('xml_token_list', f'{where} {name}: token list read back as {toks!r}', data)
-                        if name != f'sentence={si}_id={ti}':
-                            ctx.fail('xml_name', f'{where}: tree {si}/{ti} is named {name!r}', data)
                 ctx.count('oracle:xml_readback_trees', len(flat))
 
         for step in ((do_jigg, do_xml) if jigg_first else (do_xml, do_jigg)):
@@ -681,7 +680,7 @@ def run(ctx):
 
     # ------------------------------------------------------------------------------------------------------------------
     # 1. derivations -> both encoders -> readers / ccg2lambda
-    ndocs = 80 if ctx.quick else 1200
+    ndocs = 80 if ctx.quick else 500
     for d in range(ndocs):
         lang = 'en' if d % 2 == 0 else 'ja'
         set_global_language_to(lang)
@@ -752,7 +751,7 @@ def run(ctx):
         return f
 
     BADCATS = ['', '(S', 'S/NP/NP', 'S[', 'NP)', 'S[a=b,c=d]']
-    nmal = 50 if ctx.quick else 700
+    nmal = 50 if ctx.quick else 400
     made = 0
     for d in range(nmal * 3):
         if made >= nmal:
@@ -839,7 +838,7 @@ def run(ctx):
     # 3. normalize_token on arbitrary printable text; _cat_multi_valued on categories of both systems
     from depccg.printer.jigg_xml import _cat_multi_valued
     words = list(gen.WORD_POOL) + ['-', '&', '-\n', '&\n', '--', '-.', '_', '_.', '', '.', 'a-b', '(x)', 'U.S.', '!', '_-', '&&', '-&', 'a,b.c(d)e!f-g']
-    for _ in range(150 if ctx.quick else 3000):
+    for _ in range(150 if ctx.quick else 1500):
         words.append(gen.rand_word(rng))
     for w in words:
         try:
@@ -851,7 +850,7 @@ def run(ctx):
         ctx.case(('norm', w), nontrivial=any(ch in STRIPPED for ch in w))
         if not v.startswith('_') or any(ch in STRIPPED for ch in v):
             ctx.fail('normalize_token_not_clean', f'normalize_token({w!r}) = {v!r}', {'word': w})
-    ncat = 150 if ctx.quick else 2000
+    ncat = 150 if ctx.quick else 1000
     for k in range(ncat):
         c = gen.rand_cat(rng, rng.choice(['en', 'ja']), depth=rng.randint(0, 3), exotic=(k % 5 == 0), slashes=gen.SLASHES)
         try:
